@@ -159,9 +159,150 @@ def check_tostr(exe, seed=1):
             return len(cases), {"type": KINDS[k][0], "bits": hex(v), "got": o.strip(), "want": want}, ""
     return len(cases), None, "every boundary bit pattern and 1500 seeded random patterns per type"
 
-FAMILIES = {"divmod": check_divmod, "fromstr": check_fromstr, "tostr": check_tostr}
+MAP_DRIVER = r'''
+#include "map.c"
+#include <stdio.h>
+#include <string.h>
+static uint32_t h_low2(const void* k, size_t n) { (void)n; return (uint32_t)(*(const int32_t*)k) & 3u; }
+static uint32_t h_ident(const void* k, size_t n) { (void)n; return (uint32_t)(*(const int32_t*)k); }
+static uint32_t h_const(const void* k, size_t n) { (void)k; (void)n; return 7u; }
+int main(void) {
+    static char line[256];
+    ferret_map_t* m = NULL;
+    while (fgets(line, sizeof line, stdin)) {
+        char op[16]; long long a = 0, b = 0;
+        int got = sscanf(line, "%15s %lld %lld", op, &a, &b);
+        if (got < 1) continue;
+        int32_t k = (int32_t)a; int64_t v = (int64_t)b;
+        if (!strcmp(op, "new")) {
+            if (m) ferret_map_destroy(m);
+            if (a == 0) m = ferret_map_new_i32(4, 8);
+            else m = ferret_map_new(4, 8, a == 1 ? h_low2 : a == 2 ? h_ident : h_const, ferret_map_equals_i32);
+            printf("new %d\n", m != NULL);
+        } else if (!strcmp(op, "set")) {
+            printf("set %d\n", (int)ferret_map_set(m, &k, &v));
+        } else if (!strcmp(op, "get")) {
+            void* p = ferret_map_get(m, &k);
+            if (p) printf("get %lld\n", (long long)*(int64_t*)p); else printf("get none\n");
+        } else if (!strcmp(op, "opt")) {
+            struct { int64_t value; uint8_t flag; uint8_t pad[7]; } o; memset(&o, 0x5a, sizeof o);
+            ferret_map_get_optional_out(m, &k, &o);
+            ferret_map_get_result_t r = ferret_map_get_optional(m, &k);
+            if ((r.is_some != 0) != (o.flag != 0)) printf("opt inconsistent\n");
+            else if (o.flag) printf("opt %lld\n", (long long)o.value); else printf("opt none\n");
+        } else if (!strcmp(op, "has")) {
+            printf("has %d\n", (int)ferret_map_has(m, &k));
+        } else if (!strcmp(op, "size")) {
+            printf("size %zu\n", ferret_map_size(m));
+        } else if (!strcmp(op, "iter")) {
+            ferret_map_iter_t it; void *kp, *vp; size_t n = 0;
+            printf("iter");
+            if (ferret_map_iter_begin(m, &it)) {
+                while (ferret_map_iter_next(m, &it, &kp, &vp) && n < 100000) { printf(" %d:%lld", *(int32_t*)kp, (long long)*(int64_t*)vp); n++; }
+            }
+            printf("\n");
+        }
+    }
+    if (m) ferret_map_destroy(m);
+    return 0;
+}
+'''
+
+def build_map(repo, outdir):
+    os.makedirs(outdir, exist_ok=True)
+    src = os.path.join(outdir, "bounded_map_driver.c")
+    exe = os.path.join(outdir, "bounded_map_driver")
+    open(src, "w").write(MAP_DRIVER)
+    r = subprocess.run(["cc", "-std=gnu99", "-O1", "-g", "-w", "-fsanitize=address,undefined", "-fno-sanitize-recover=all", "-I", os.path.join(repo, "runtime/core"),
+                        "-I", os.path.join(repo, "runtime/libs"), src, "-o", exe, "-lm"], capture_output=True, text=True)
+    if r.returncode != 0:
+        raise RuntimeError("bounded map driver does not build: " + r.stderr[-600:])
+    return exe
+
+def check_map(exe_unused, seed=1, repo=None, outdir=None):
+    """ferret_map_* against a Python dict: after EVERY operation the whole observable state is compared
+    (size, has/get/get_optional of every key ever used and of absent keys, one full iteration).
+    Built with AddressSanitizer/UBSan, so a memory error is a failure as well."""
+    exe = build_map(repo, outdir)
+    rnd = random.Random(seed)
+    scripts = []
+    # (1) small scope, exhaustive: every sequence of <= 5 sets over 3 keys x 2 values, under a 4-bucket-collision hash
+    import itertools
+    alphabet = [(k, v) for k in (0, 4, 5) for v in (10, 20)]
+    for L in range(0, 6):
+        for seq in itertools.product(alphabet, repeat=L):
+            scripts.append((1, list(seq)))
+    # (2) growth across four resize thresholds (12, 24, 48, 96 entries), one set at a time, several key orders and hashes
+    for hk in (0, 1, 2, 3):
+        n = 130 if hk != 3 else 40
+        orders = [list(range(n)), list(range(n - 1, -1, -1)), [i * 16 for i in range(n)], [i * 12 + 5 for i in range(n)],
+                  [-(i * 7) - 1 for i in range(n)], rnd.sample(range(-10**6, 10**6), n)]
+        for keys in orders:
+            seq = []
+            for i, k in enumerate(keys):
+                seq.append((k, i * 3 + 1))
+                if i % 5 == 4:
+                    seq.append((keys[rnd.randrange(0, i + 1)], -i))      # overwrite an existing key
+                if i in (11, 12, 23, 24, 47, 48, 95, 96):
+                    seq.append((k, 1000 + i))                             # re-set the key that crossed a threshold
+            scripts.append((hk, seq))
+    lines, expect, where = [], [], []
+    ncases = 0
+    for hk, seq in scripts:
+        lines.append("new %d" % hk); expect.append("new 1"); where.append((hk, []))
+        ref = {}
+        hist = []
+        for (k, v) in seq:
+            hist = hist + [(k, v)]
+            ref[k] = v
+            lines.append("set %d %d" % (k, v)); expect.append("set 1"); where.append((hk, hist))
+            lines.append("size"); expect.append("size %d" % len(ref)); where.append((hk, hist))
+            lines.append("iter"); expect.append(("iter", dict(ref))); where.append((hk, hist))
+            probe = [k, k + 1, k - 16] + ([hist[0][0]] if hist else [])
+            if len(hist) % 8 == 0 or len(seq) <= 6:
+                probe = list(ref.keys()) + probe
+            for q in probe:
+                lines.append("has %d" % q); expect.append("has %d" % (q in ref)); where.append((hk, hist))
+                lines.append("get %d" % q); expect.append("get %s" % (ref[q] if q in ref else "none")); where.append((hk, hist))
+                lines.append("opt %d" % q); expect.append("opt %s" % (ref[q] if q in ref else "none")); where.append((hk, hist))
+            ncases += 1
+    r = subprocess.run([exe], input="\n".join(lines) + "\n", capture_output=True, text=True, timeout=900)
+    out = r.stdout.split("\n")
+    for i, (cmd, want) in enumerate(zip(lines, expect)):
+        got = out[i] if i < len(out) else "(no output: the driver stopped — %s)" % r.stderr[-300:].replace("\n", " ")
+        ok = (got == want) if isinstance(want, str) else None
+        if ok is None:
+            items = got.split()[1:] if got.startswith("iter") else None
+            if items is None:
+                ok = False
+            else:
+                seen = {}
+                dup = False
+                for it in items:
+                    kk, vv = it.split(":")
+                    if int(kk) in seen:
+                        dup = True
+                    seen[int(kk)] = int(vv)
+                ok = (not dup) and seen == want[1]
+        if not ok:
+            hk, hist = where[i]
+            return ncases, {"hash": ["fnv1a (ferret_map_new_i32)", "key & 3", "identity", "constant"][hk], "operations": " ".join("set(%d,%d)" % kv for kv in hist[-16:]),
+                            "operations_before": max(0, len(hist) - 16), "then": cmd, "got": got[:200], "want": str(want)[:200]}, ""
+    if r.returncode != 0:
+        return ncases, {"driver": "exit %d" % r.returncode, "stderr": r.stderr[-400:]}, ""
+    return ncases, None, ("every sequence of <= 5 set operations over 3 keys x 2 values under a colliding hash; growth one set at a time to 130 keys across the resize thresholds "
+                          "12/24/48/96 in 6 key orders x 4 hash functions (fnv1a, key&3, identity, constant) with overwrites; after every operation size, a full iteration, and "
+                          "has/get/get_optional of present and absent keys are compared with a Python dict; built with ASan+UBSan")
+
+def _big(f):
+    return lambda repo, outdir: f(build(repo, outdir))
+
+FAMILIES = {"divmod": _big(check_divmod), "fromstr": _big(check_fromstr), "tostr": _big(check_tostr),
+            "map": lambda repo, outdir: check_map(None, repo=repo, outdir=outdir)}
 
 if __name__ == "__main__":
-    exe = build(sys.argv[1] if len(sys.argv) > 1 else "/repo", "/tmp/bounded_try")
+    repo = sys.argv[1] if len(sys.argv) > 1 else "/repo"
     for k, f in FAMILIES.items():
-        print(k, f(exe))
+        if len(sys.argv) > 2 and k != sys.argv[2]:
+            continue
+        print(k, f(repo, "/tmp/bounded_try"))
